@@ -1241,15 +1241,13 @@ impl super::DiskFS for Disk {
                 if end>128*256 || fimg.get_eof()>0xffffff || blocks_needed > self.num_free_blocks()? as usize {
                     return Err(Box::new(Error::DiskFull));
                 }
+                // create the entry, a file image it cannot be made from is refused before anything is written
+                let entry = Entry::create_file(&name,fimg,new_key_block,dir_key_block,None)?;
                 // update the file count in the parent key block
                 let mut dir = self.get_directory(dir_key_block as usize)?;
                 dir.inc_file_count();
                 self.write_block(&dir.to_bytes(),dir_key_block as usize,0)?;
-                // create the entry
-                match Entry::create_file(&name,fimg,new_key_block,dir_key_block,None) {
-                    Ok(entry) => self.write_entry(&loc,&entry)?,
-                    Err(e) => return Err(e)
-                }
+                self.write_entry(&loc,&entry)?;
                 // write blocks
                 match self.write_file(loc,fimg) {
                     Ok(len) => Ok(len),
